@@ -1839,3 +1839,121 @@ CONTROLS['C14'] += [
       "    if not version.matches((1, 26)):\n        op = operator.le\n        exc_class = exception.InvalidInventoryCapacity\n    else:\n        op = operator.lt\n        exc_class = exception.InvalidInventoryCapacityReservedCanBeTotal\n",
       "    if version.matches((1, 26)):\n        op = operator.lt\n        exc_class = exception.InvalidInventoryCapacityReservedCanBeTotal\n    else:\n        op = operator.le\n        exc_class = exception.InvalidInventoryCapacity\n")]),
 ]
+
+
+RCX = O + 'research_context.py'
+ACX = O + 'allocation_candidate.py'
+
+CONTROLS['C03'] = [
+    # R3.1 a filter dropped on one of the sibling search paths
+    M('c03-tree-path-drops-forbidden-aggs', RCX,
+      "        if rg_ctx.forbidden_aggs:\n"
+      "            # Aggregate on root spans the whole tree, so the rp itself\n"
+      "            # *and its root* should be outside the aggregate\n"
+      "            provs_with_inv_rc.filter_by_rp_nor_tree(rps_bad_aggs)\n",
+      "        if False:\n"
+      "            provs_with_inv_rc.filter_by_rp_nor_tree(set())\n", 'R3.1',
+      accept_analysis_error=False),
+    M('c03-single-path-drops-forbidden-traits', RCX,
+      "    if rg_ctx.forbidden_traits:\n"
+      "        rps_bad_traits = get_provider_ids_having_any_trait(\n"
+      "            rg_ctx.context, rg_ctx.forbidden_traits.values())\n"
+      "        forbidden_rp_ids |= rps_bad_traits\n"
+      "        if filtered_rps:\n"
+      "            filtered_rps -= rps_bad_traits\n",
+      "    if False:\n"
+      "        rps_bad_traits = set()\n"
+      "        forbidden_rp_ids |= rps_bad_traits\n"
+      "        if filtered_rps:\n"
+      "            filtered_rps -= rps_bad_traits\n", 'R3.1'),
+    M('c03-context-forgets-member-of', RCX,
+      "        self.member_of = group.member_of\n",
+      "        self.member_of = []\n", 'R3.1'),
+    M('c03-reintroduce-F14', RCX,
+      "        if rg_ctx.tree_root_id is not None:\n"
+      "            # in_tree restricts a group without resources as well\n"
+      "            provs_with_resource = set(\n"
+      "                rpids for rpids in provs_with_resource\n"
+      "                if rpids[1] == rg_ctx.tree_root_id)\n", "", 'R3.1'),
+    M('c03-same-subtrees-not-stored', RCX,
+      "        self.same_subtrees = rqparams.same_subtrees\n",
+      "        self.same_subtrees = []\n", 'R3.1'),
+    # R3.2 merge filters
+    M('c03-merge-skips-same-subtree', ACX,
+      "            if not _satisfies_same_subtree(areq_list, rw_ctx):\n"
+      "                continue\n", "", 'R3.2'),
+    M('c03-merge-capacity-inverted', ACX,
+      "            if rw_ctx.exceeds_capacity(areq):\n                continue\n",
+      "            if not rw_ctx.exceeds_capacity(areq):\n"
+      "                continue\n", 'R3.2'),
+    M('c03-merge-any-group-subset', ACX,
+      "        if set(areq_lists_by_suffix) != all_suffixes:\n"
+      "            continue\n", "", 'R3.2'),
+    M('c03-merge-policy-on-other-list', ACX,
+      "            if not _satisfies_group_policy(\n"
+      "                    areq_list, rw_ctx.group_policy, "
+      "num_granular_groups):\n",
+      "            if not _satisfies_group_policy(\n"
+      "                    areq_list[:1], rw_ctx.group_policy, "
+      "num_granular_groups):\n", 'R3.2'),
+    # R3.3 trait check per combination
+    M('c03-tree-path-unchecked-combination', ACX,
+      "                # This combination doesn't satisfy trait constraints\n"
+      "                continue\n",
+      "                pass\n", 'R3.3'),
+    M('c03-trait-check-ignores-forbidden', ACX,
+      "        if conflict_traits:\n", "        if False:\n", 'R3.3'),
+    # R3.4 anchors
+    M('c03-single-path-skips-anchor-filter', ACX,
+      "        if rw_ctx.in_filtered_anchors(root_id):\n"
+      "            alloc_requests.append(req_obj)\n",
+      "        alloc_requests.append(req_obj)\n", 'R3.4'),
+    M('c03-anchor-filter-empty-means-none', RCX,
+      "        if self.anchor_root_ids is None:\n"
+      "            # Not filtering anchors\n            return True\n",
+      "        if not self.anchor_root_ids:\n"
+      "            return False\n", 'R3.4'),
+    # R3.5 nested providers below 1.29
+    M('c03-nested-gate-1-28', H + 'allocation_candidate.py',
+      "nested_aware = want_version.matches((1, 29))",
+      "nested_aware = want_version.matches((1, 28))", 'R3.5'),
+    M('c03-exclude-nested-passes-when-trees', RCX,
+      "        if self._nested_aware or not self.has_trees:\n",
+      "        if self._nested_aware or self.has_trees:\n", 'R3.5'),
+    M('c03-exclude-nested-keeps-any', RCX,
+      "            if len(root_by_rp) == len(set(root_by_rp.values())):\n",
+      "            if len(root_by_rp) >= len(set(root_by_rp.values())):\n",
+      'R3.5'),
+    # R3.6 de-duplication
+    M('c03-eq-ignores-mappings', ACX,
+      "        return (set(self.resource_requests) == "
+      "set(other.resource_requests) and\n"
+      "                self.mappings == other.mappings)\n",
+      "        return set(self.resource_requests) == "
+      "set(other.resource_requests)\n", 'R3.6'),
+    # R3.7 SQL
+    M('c03-sharing-join-wrong-key', RCX,
+      "        shr_aggs.c.aggregate_id == shr_with_sps_aggs.c.aggregate_id)\n",
+      "        shr_aggs.c.aggregate_id == "
+      "shr_with_sps_aggs.c.resource_provider_id)\n", 'R3.7'),
+    # benign twins
+    B('c03-benign-merge-filters-merged', ACX,
+      "            if not _satisfies_same_subtree(areq_list, rw_ctx):\n"
+      "                continue\n"
+      "            # Now we go from this",
+      "            subtree_ok = _satisfies_same_subtree(areq_list, rw_ctx)\n"
+      "            if not subtree_ok:\n"
+      "                continue\n"
+      "            # Now we go from this"),
+    B('c03-benign-anchor-filter-inverted', ACX,
+      "        if rw_ctx.in_filtered_anchors(root_id):\n"
+      "            alloc_requests.append(req_obj)\n",
+      "        if not rw_ctx.in_filtered_anchors(root_id):\n"
+      "            pass\n"
+      "        else:\n"
+      "            alloc_requests.append(req_obj)\n"),
+    B('c03-benign-context-local', RCX,
+      "        self.member_of = group.member_of\n",
+      "        required_aggs = group.member_of\n"
+      "        self.member_of = required_aggs\n"),
+]
